@@ -266,6 +266,11 @@ package graph
 // ---- C04 (strengthened after seeded change dot-node-omits-cum-when-not-larger-in-magnitude-than-flat): a DOT node
 // label carries the flat value whenever it is non-zero and the cum value whenever it differs from flat — whatever their
 // signs or magnitudes (the share of each is computed from exactly that value).
+// ---- C05 (after seeded change dot-inline-edge-not-marked-residual): the DOT edge is drawn as bypassing ("...") exactly when the edge
+// is residual, whether or not it is also inline ----
+//@ func builder.addEdge nosafety
+//@   requires edge != nil && b != nil && b.config != nil
+//@   atreturn residual_arrow: edge.Residual <==> arrow == "..."
 //@ func builder.addNode nosafety
 //@   mustcall Percentage flat_shown: $arg0 == flat when flat != 0
 //@   mustcall Percentage cum_shown: $arg0 == cum when cum != flat
